@@ -135,7 +135,7 @@ func concurrentScenario(rounds, hammerers int, buffered bool, all bool) (seen ma
 	cl := xsens.NewClient(ce)
 	ctx, cancel := context.WithCancel(context.Background())
 	done := make(chan struct{})
-	go func() { _ = emu.Receive(ctx); close(done) }()
+	go func() { protect(func() { _ = emu.Receive(ctx) }); close(done) }()
 	cfgA, cfgB, _, _ := mixConfigs()
 	if err := cl.SetOutputConfiguration(ctx, cfgA); err != nil {
 		cmdErrs++
